@@ -49,6 +49,16 @@ CHECKS = {
         note="Union-typed schemas/fields belong to C14; `default` values are not generated (the statement does not say whether an absent optional may come back as its default); defects behind an excluded trigger are masked until that finding is fixed.",
         design="§5 C03",
     ),
+    "C07": dict(
+        category="exploration",
+        technique="Hypothesis-constructed operation sets (tag none/one/several/spelling variants, operationId absent/duplicated after sanitisation/suffix-colliding/FastAPI-style/hostile, 3 naming strategies, JSON / YAML / YAML with integer status keys) through generate_client; BEHAVIOURAL oracle: every public method of every tag client reachable from APIClient is called against an in-memory server and attributed to the operation whose request it issues; counts compared with the document",
+        text="Operations in vs. methods out are counted per tag group for ~1 500 generated documents per quick run: an operation "
+             "reached by fewer methods than it has tag groups is silently dropped, by more is duplicated. Attribution is by the "
+             "request actually issued, so no naming rule is trusted. Naming-strategy clauses are asserted only where the "
+             "documentation is unambiguous (unique snake_case ids kept verbatim; `path` names start with the HTTP method).",
+        note="Packages that do not import are skipped (C01); a package in which some method cannot be driven to a request with probe arguments is counted as undecided, not as a violation; tag groups compared by lower-cased alphanumeric content.",
+        design="§5 C07",
+    ),
     "C08": dict(
         category="exploration",
         technique="same exhaustive graph strata + depth grid (4 chain kinds x PYOPENAPI_MAX_DEPTH in {5,10,50,150} x lengths around and far beyond the limit, differential against an unlimited run) + Hypothesis multigraphs; enter/exit wrapped from the harness; invariants on the tracker's rest state, terminal states, declared names, RecursionError and a deterministic termination budget",
